@@ -73,6 +73,13 @@ type gen struct {
 	nfrag                int
 	labels               map[string]bool
 	leafOnly, noTypename int
+	fragsByType          map[string][]fragInfo
+}
+
+type fragInfo struct {
+	name  string
+	keys  map[string]string
+	names []string
 }
 
 func (g *gen) pick(n int, label string) int {
@@ -413,11 +420,51 @@ func (g *gen) fragmentOn(def *ast.Definition, depth int, sc *scope) string {
 	g.label("fragments")
 	sc.inFrag++
 	defer func() { sc.inFrag-- }()
+	// spread an existing fragment on this type a second time (one definition, two usages)
+	if g.o.Fragments && len(g.fragsByType[def.Name]) > 0 && g.chance(40, "reusefrag") {
+		fi := g.fragsByType[def.Name][g.pick(len(g.fragsByType[def.Name]), "whichfrag")]
+		ok := true
+		for k, sig := range fi.keys {
+			if prev, used := sc.keys[k]; used && prev != sig {
+				ok = false
+			}
+			if _, used := sc.keys[k]; used && g.o.Avoid["op.duplicateKeyDifferentConditions"] {
+				ok = false
+			}
+		}
+		if ok {
+			for k, sig := range fi.keys {
+				sc.keys[k] = sig
+			}
+			sc.names = append(sc.names, fi.names...)
+			g.label("namedFragmentUsedTwice")
+			return "..." + fi.name
+		}
+	}
 	if g.o.Fragments && g.chance(35, "named") {
 		g.nfrag++
 		name := fmt.Sprintf("F%d", g.nfrag)
+		before := map[string]string{}
+		for k, v := range sc.keys {
+			before[k] = v
+		}
+		nbefore := len(sc.names)
+		nvars := len(g.vars)
 		body := g.selectionSet(def, depth, sc)
 		g.frags = append(g.frags, "fragment "+name+" on "+def.Name+" "+body)
+		// only fragments that do not use variables are reused (a second usage would need the same variables in scope anyway)
+		if len(g.vars) == nvars && !strings.Contains(body, "$") && !strings.Contains(body, "...") {
+			fi := fragInfo{name: name, keys: map[string]string{}, names: append([]string{}, sc.names[nbefore:]...)}
+			for k, v := range sc.keys {
+				if _, had := before[k]; !had {
+					fi.keys[k] = v
+				}
+			}
+			if g.fragsByType == nil {
+				g.fragsByType = map[string][]fragInfo{}
+			}
+			g.fragsByType[def.Name] = append(g.fragsByType[def.Name], fi)
+		}
 		g.label("namedFragment")
 		d := strings.TrimSpace(g.fragDirs())
 		if d != "" {
